@@ -4,5 +4,6 @@ CONSTANTS
   MaxFields = 2
   EmitMod = 97
   WarmInSeedOrder = FALSE
+  GenInSeedOrder = FALSE
 INVARIANTS PlainIsValidInv EduceIfDirectInv NoSpuriousEduceInv Functional Emit
 CHECK_DEADLOCK FALSE
